@@ -12,7 +12,7 @@ CHECK = {
     ],
     "lean_sources": ["ClusterVerif/Model/C07.lean", "ClusterVerif/Model/C07Sys.lean", "ClusterVerif/Spec/C07.lean", "ClusterVerif/Gen/C07.lean",
                      "ClusterVerif/Lemmas/C07.lean", "Driver/C07.lean"],
-    "rule": "auth: one configuration = (policy table shipped/follower/custom overrides) x (raft | crdt trusted_peers list with '*', repeats, "
+    "rule": "auth: one configuration = (Config.Tracing off/on) x (policy table shipped/follower/custom overrides) x (raft | crdt trusted_peers list with '*', repeats, "
             "id-only peers) x (0-5 Trust/Distrust calls); per configuration IsTrustedPeer of the real consensus for 7 peers, and for one "
             "configuration in four every caller (self + 3 remote hosts) calls every registered endpoint and 5 unregistered names over real "
             "libp2p streams (plus a hand-rolled client every 7th call). rep: observer trust configuration x calls x 1-4 non-conflicting "
